@@ -359,7 +359,7 @@ fn judge_exec(c: &Case, recs: &[Record]) -> Option<(String, String)> {
 
 /// Inputs for C13 (single-module cases that are expected to be accepted).
 pub fn all_inputs() -> Vec<pipe::Input> {
-    cases().iter().filter(|c| c.reject.is_none() && c.raw.is_none()).map(|c| pipe::Input::single(module_of(c))).collect()
+    cases().iter().filter(|c| c.reject.is_none() && c.raw.is_none() && c.funcs.iter().all(|f| f.addr >> 32 == 0)).map(|c| pipe::Input::single(module_of(c))).collect()
 }
 
 pub fn run(tier: &str, only: Option<&Value>) -> i32 {
@@ -403,6 +403,11 @@ pub fn run(tier: &str, only: Option<&Value>) -> i32 {
                 (pipe::Verdict::Ok(b), Some(why)) => Some((format!("accepted_but_must_reject:{why}"), b.files["m.rs"].clone())),
                 (_, Some(why)) => {
                     rep.count(&format!("rejected_as_required_{why}"), 1);
+                    None
+                }
+                // an address that needs more than 32 bits cannot be called at pointer width 4
+                (pipe::Verdict::Err(_), None) if ps == 4 && c.funcs.iter().any(|f| f.addr >> 32 != 0) => {
+                    rep.count("rejected_address_beyond_pointer_width", 1);
                     None
                 }
                 (pipe::Verdict::Ok(b), None) => {
